@@ -734,9 +734,15 @@ class _ServiceBrowserBase(RecordUpdateListener):
 
         This method is expected to be overridden by subclasses.
         """
-        for pending in self._pending_handlers.items():
+        # A handler may start another browser, which makes the record
+        # manager call this browser again before the loop below is done:
+        # what is pending is taken out first
+        pending_handlers = self._pending_handlers
+        if not pending_handlers:
+            return
+        self._pending_handlers = {}
+        for pending in pending_handlers.items():
             self._fire_service_state_changed_event(pending)
-        self._pending_handlers.clear()
 
     def _fire_service_state_changed_event(self, event: Tuple[Tuple[str, str], ServiceStateChange]) -> None:
         """Fire a service state changed event.
